@@ -210,4 +210,11 @@ theorem C08_package_state_inventory :
   · decide
   · decide
 
+/-- **C08 (template function objects hold no per-render state).** The objects behind the template functions are built once and
+shared by all renders; in no method of package templatefunctions (constructor-time `Inject` aside) is anything assigned that is
+reached from the method's receiver - regenerated from the Go source on every run. What a render needs (its context) it gets as an
+argument of `Func(ctx)` and keeps in the closure it returns. -/
+theorem C08_funcs_keep_no_state_on_receiver : Gen.funcReceiverWrites_ok = true ∧ Gen.funcReceiverWrites = [] := by
+  constructor <;> decide
+
 end Pug.Props.C08
